@@ -177,6 +177,15 @@ func main() {
 		_, v := runTail(c)
 		return v
 	})
+	r.RegisterReplay("list", func(pj json.RawMessage) *mc.Viol {
+		var c listCase
+		json.Unmarshal(pj, &c)
+		var v *mc.Viol
+		if pn := mc.CatchStack(func() { _, v = runList(c) }); pn != "" {
+			return &mc.Viol{Sig: c.Op + ": panics", What: pn}
+		}
+		return v
+	})
 	r.RegisterReplay("bigarg", func(pj json.RawMessage) *mc.Viol {
 		var c bigCase
 		json.Unmarshal(pj, &c)
@@ -259,6 +268,20 @@ func main() {
 	})
 	r.Set("big_integer_argument_cases", len(bigs))
 
+	// (D) the caller's lists
+	for _, op := range listOps {
+		c := listCase{Op: op}
+		var out string
+		var v *mc.Viol
+		if pn := mc.CatchStack(func() { out, v = runList(c) }); pn != "" {
+			out, v = "panic", &mc.Viol{Sig: op + ": panics", What: pn}
+		}
+		if v != nil {
+			r.Violation("list", c, v)
+		}
+		r.Case("list-"+op, true, "list:"+out)
+	}
+
 	// (B)
 	depth := mc.Pick(r, 3, 4)
 	for _, h := range hs {
@@ -266,7 +289,7 @@ func main() {
 	}
 	r.Par(len(hs), func(i int) { hs[i].Run(r) })
 	r.Set("history_depth", depth)
-	r.SetRule("(A) every operation x every byte-slice argument x spare capacity {0,1,16,64,512} x fill {00,AA,FF} inside a guarded buffer; non-trivial = spare capacity > 0. (C) every ecdsa operation taking *big.Int values or key objects x 4 curves: all big integers of the arguments compared before/after, call repeated on the same objects. (B) every sequence up to the depth over the per-type operation menu (snapshot request fields, snapshot encoding, finalize valid/invalid, evaluate, marshal again, verify) on one request state / issuer; every hand-out is compared after every later step")
+	r.SetRule("(A) every operation x every byte-slice argument x spare capacity {0,1,16,64,512} x fill {00,AA,FF} inside a guarded buffer; non-trivial = spare capacity > 0. (C) every ecdsa operation taking *big.Int values or key objects x 4 curves: all big integers of the arguments compared before/after, call repeated on the same objects. (D) the caller's own request list (batch client) and nonce / blind lists (type-5 client) compared after later calls on the object built from them. (B) every sequence up to the depth over the per-type operation menu (snapshot request fields, snapshot encoding, finalize valid/invalid, evaluate, marshal again, verify) on one request state / issuer; every hand-out is compared after every later step")
 	r.Assume("results are compared through a digest of everything the operation returns, under a per-case deterministic entropy stream, so also randomised operations must give identical results across capacities",
 		"quicwire.Append* are excluded: writing behind len(dst) is their contract (C19 checks it)",
 		"only the goroutine-local view is checked here; concurrent sharing is C17")
